@@ -217,12 +217,15 @@ def to_linear(out, semiring):
     """Compiled output (B, O, K) in the given semiring -> complex numpy array, linear domain."""
     o = out.detach().to(torch.complex128)
     if semiring != "sum-product":
-        # exp of a log-space value; a real part of -inf with a finite phase is an exact zero
-        # (torch.exp(-inf + i*theta) evaluates to nan for complex tensors)
+        # exp of a log-space value.  A real part of -inf is an exact zero whatever the phase is
+        # (the phase of zero is undefined: cirkit may produce -inf+nan*j, e.g. from 0 * x in
+        # complex log space; torch.exp(-inf + i*theta) itself evaluates to nan)
         mag = torch.exp(o.real)
-        phase = torch.polar(torch.ones_like(o.real), o.imag)
-        zero = (mag == 0) & torch.isfinite(o.imag)
+        phase = torch.polar(torch.ones_like(o.real), torch.nan_to_num(o.imag, nan=0.0))
+        zero = (o.real == float("-inf"))
+        bad = torch.isnan(o.imag) & ~zero
         o = torch.where(zero, torch.zeros_like(phase), mag.to(torch.complex128) * phase)
+        o = torch.where(bad, torch.full_like(o, float("nan")), o)
     return o.numpy()
 
 
